@@ -1,32 +1,50 @@
 /-
   C04 — the quotient filter is an exact set of 32-bit hashes.
 
-  WHAT IS PROVED HERE (all for unbounded table sizes 3 ≤ q ≤ 31, hashes and histories):
+  The model (`PyProb/Model/QF.lean`) mirrors the REPAIRED Python code: `remove` decrements
+  `elements_added` (D1) and `_add` refuses an insertion when `count ≥ size − 1`, so that one slot
+  always stays empty (D2).  The specification (`PyProb/Spec/QF.lean`) is the canonical layout
+  `layout q auto S` of a sorted duplicate-free set `S` of (quotient, remainder) pairs.
 
-  * `C04_partial` (Layer C given A and B): IF the two read paths and the two write paths of the
-    model refine the canonical layout (`A1_contained`, `A2_hashes`, `B1_add`, `B2_remove`, kept
-    below as visible `def … : Prop`), THEN after every history of `add | remove | resize | merge`
-    calls (manual and automatic resize) starting from `QuotientFilter(q, auto)` in which no call
-    raised, the complete state equals `layout q' (set of the history)`, `check_alt` is membership,
-    `get_hashes` is a permutation of that set, `elements_added` is its size.
-  * `C04_partial_no_raise_remove`, `C04_partial_add_outcome`: under the same hypotheses `remove`
-    never raises and never diverges, `add` without auto-resize either succeeds or is refused with
-    `QuotientFilterError`; it never diverges.
-  * unconditional: `C04_new`, `C04_check_empty`, `C04_add_first`, `C04_add_refused_iff`,
-    `C04_add_refused_unchanged`, `C04_remove_absent`, `C04_count_step_add`,
-    `C04_count_step_remove`, `C04_shape_add`, `C04_shape_remove`, `C04_layout_shape`.
+  PROVED, for every table size 3 ≤ q ≤ 31, every set, every history (no bound anywhere):
 
-  WHAT IS NOT PROVED: `A1_contained`, `A2_hashes`, `B1_add`, `B2_remove` themselves for all table
-  sizes (see `C04_full_statement`).  They are supported by the bounded checks in
-  `PyProb/Lemmas/QFBounded*.lean` (TESTS by kernel evaluation over all canonical states of an
-  8-slot table over small universes), not by proofs.
+  * Layer A (read paths), unconditionally:
+    `C04_contained : A1_contained` — `_contained_at_loc` on the canonical table of ANY canonical
+      set terminates within its fuel and finds exactly the stored elements;
+    `C04_hashes : A2_hashes` — `get_hashes` terminates and returns a permutation of the set;
+    `C04_layout_fits` — the slot chosen by the layout stays empty and the placement ends in
+      front of it (the combinatorial core: a cycle lemma); `C04_check_layout`.
+  * Layer C given Layer B: `C04_partial` (hypotheses A1, A2, B1, B2) and `C04_partial_B`
+    (hypotheses B1, B2 only — A1 and A2 are discharged): after every history of
+    `add | remove | resize | merge` calls, manual and automatic resize, starting from
+    `QuotientFilter(q, auto)`, in which no call raised, the complete state equals
+    `layout q' (set of the history)`, `check_alt` is membership, `get_hashes` is a duplicate-free
+    listing of that set, `elements_added` is its size.  `C04_partial_remove_total`,
+    `C04_partial_add_outcome`: `remove` never raises or diverges, `add` (no auto-resize) succeeds
+    or is refused with `QuotientFilterError` exactly when the hash is new and the table is full.
+    `C04_setOf_spec`, `C04_setOf_sorted`: the specification set is the mathematical one.
+  * `C04_exact_set_bounded`: the full exact-set statement WITHOUT hypotheses for histories of any
+    length over the 7-element universe `QFBounded.UA` on an 8-slot table (the four refinement
+    facts are established there by exhaustive kernel evaluation).
+  * small unconditional facts: `C04_new`, `C04_new_arrays`, `C04_layout_shape`, `C04_check_empty`,
+    `C04_add_first`, `C04_add_refused_iff`, `C04_add_refused_unchanged`, `C04_remove_absent`,
+    `C04_shape_add`, `C04_shape_remove`, `C04_count_step_add`, `C04_count_step_remove`,
+    `C04_count_step`.
+
+  NOT PROVED: `B1_add` and `B2_remove` (the write paths refine the canonical layout) for all table
+  sizes; they stay visible `def … : Prop` hypotheses of `C04_partial_B`, whose conclusion is
+  `C04_full_statement`.  They are supported by BOUNDED CHECKS (tests by kernel evaluation, not
+  proofs) in `PyProb/Lemmas/QFBounded*.lean`: all canonical tables of the 8-slot filter over two
+  universes (128 + 64 sets, every element inserted into / removed from every set).
 -/
 import PyProb.Lemmas.QFSet
 import PyProb.Lemmas.QFBasic
 import PyProb.Lemmas.QFLayout
+import PyProb.Lemmas.QFReadLayout
 import PyProb.Lemmas.QFBoundedAdd
 import PyProb.Lemmas.QFBoundedRemove
 import PyProb.Lemmas.QFBoundedRead
+import PyProb.Lemmas.QFBoundedAddAlt
 
 namespace PyProb.C04
 open PyProb PyProb.Spec PyProb.QF
@@ -35,6 +53,8 @@ open PyProb PyProb.Spec PyProb.QF
 
 /-- an element that fits a table with `2^q` slots and `32 - q` remainder bits -/
 def InRange (q : Nat) (x : Elem) : Prop := x.1 < 2 ^ q ∧ x.2 < 2 ^ (32 - q)
+
+instance (q : Nat) (x : Elem) : Decidable (InRange q x) := by unfold InRange; infer_instance
 
 /-- Layer A1: on a canonical table the look-up terminates and finds exactly the stored elements -/
 def A1_contained : Prop :=
@@ -646,6 +666,23 @@ theorem C04_partial (hA1 : A1_contained) (hA2 : A2_hashes) (hB1 : B1_add) (hB2 :
       hI.sorted, hI.q3, hI.q31, hI.room⟩
   · cases hnew
 
+/-- a history ends in `.ok` only if every one of its calls returned: no call raised and no loop of
+    the model ran out of fuel -/
+theorem C04_run_prefix (b : Nat) (s0 s : QF) (ops₁ : List Op) (op : Op) (ops₂ : List Op)
+    (h : run b s0 (ops₁ ++ op :: ops₂) = .ok s) :
+    ∃ s1 s2, run b s0 ops₁ = .ok s1 ∧ step b s1 op = .ok s2 ∧ run b s2 ops₂ = .ok s := by
+  induction ops₁ generalizing s0 with
+  | nil =>
+      simp only [List.nil_append, run] at h ⊢
+      cases hs : step b s0 op with
+      | error e => rw [hs] at h; cases h
+      | ok s2 => rw [hs] at h; exact ⟨s0, s2, rfl, hs, h⟩
+  | cons o os ih =>
+      simp only [List.cons_append, run] at h ⊢
+      cases hs : step b s0 o with
+      | error e => rw [hs] at h; cases h
+      | ok s' => rw [hs] at h; exact ih s' h
+
 /-- the refinement invariant holds after every history in which no call raised -/
 theorem C04_partial_inv (hA1 : A1_contained) (hA2 : A2_hashes) (hB1 : B1_add) (hB2 : B2_remove)
     (q : Int) (auto : Bool) (b : Nat) (ops : List Op) (hops : ∀ op ∈ ops, op.InRange)
@@ -726,36 +763,117 @@ theorem C04_partial_add_outcome (hA1 : A1_contained) (hA2 : A2_hashes) (hB1 : B1
         · simp only [pairs, List.length_map]; omega
         · intro hm; exact hnm ((mem_pairs a.q h a.H).1 hm)
 
+/-! ### Layer A proper: the read paths, for every table size, unconditionally -/
+
+/-- **Layer A1 proved**: on the canonical table of any canonical set (any 3 ≤ q ≤ 31, any number of
+    elements below `2^q`, any cluster shape, with wrap-around) `_contained_at_loc` terminates within
+    its fuel and returns an index exactly for the stored elements -/
+theorem C04_contained : A1_contained := by
+  intro q auto S x hC hx
+  obtain ⟨h3, _, hS, hr, hl⟩ := hC
+  exact contained_layout q (by omega) auto S hS (fun y hy => (hr y hy).1) hl x hx.1
+
+/-- **Layer A2 proved**: on the canonical table of any canonical set `get_hashes` terminates and
+    returns a permutation of the hashes of the set -/
+theorem C04_hashes : A2_hashes := by
+  intro q auto S hC
+  obtain ⟨h3, _, hS, hr, hl⟩ := hC
+  exact hashes_layout q (by omega) auto S hS (fun y hy => (hr y hy).1) hl
+
+/-- look-up on a canonical table is exact: no false negatives and no false positives among
+    32-bit hashes (unconditional) -/
+theorem C04_check_layout (q : Nat) (h3 : 3 ≤ q) (h31 : q ≤ 31) (auto : Bool) (H : List Nat)
+    (hs : SortedN H) (hr : ∀ h ∈ H, h < 2 ^ 32) (hl : H.length < 2 ^ q) (h : Nat) (hh : h < 2 ^ 32) :
+    checkAlt (layout q auto (pairs q H)) h = .ok (decide (h ∈ H)) :=
+  (inv_observe C04_contained C04_hashes (a := ⟨q, H⟩) ⟨h3, h31, hs, hr, hl, rfl⟩).1 h hh
+
+/-- every canonical set has a slot that stays empty and its placement ends in front of it -/
+theorem C04_layout_fits (q : Nat) (S : List Elem) (hC : Canon q S) : Fits (2 ^ q) S :=
+  canon_fits (2 ^ q) S hC.2.2.1 (fun y hy => (hC.2.2.2.1 y hy).1) hC.2.2.2.2
+
+/-- the full statement of C04 for the model (no hypotheses) -/
+def C04_full_statement : Prop :=
+  ∀ (q : Int) (auto : Bool) (b : Nat) (ops : List Op), (∀ op ∈ ops, op.InRange) →
+    ∀ (s0 s : QF), QF.new q auto = .ok s0 → run b s0 ops = .ok s →
+    let a := absRun auto ⟨q.toNat, []⟩ ops
+    s = layout a.q auto (pairs a.q a.H) ∧
+    (∀ h, h < 2 ^ 32 → checkAlt s h = .ok (decide (h ∈ a.H))) ∧
+    (∃ l, getHashes s = .ok l ∧ l.Perm a.H ∧ l.Nodup) ∧
+    s.count = (a.H.length : Nat) ∧ s.size = 2 ^ a.q ∧
+    SortedN a.H ∧ 3 ≤ a.q ∧ a.q ≤ 31 ∧ a.H.length < 2 ^ a.q
+
+/-- **C04 given Layer B only**: with the read paths proved, the full statement follows from the
+    two write-path refinement hypotheses `B1_add` and `B2_remove` alone -/
+theorem C04_partial_B (hB1 : B1_add) (hB2 : B2_remove) : C04_full_statement :=
+  fun q auto b ops hops s0 s hnew hrun =>
+    C04_partial C04_contained C04_hashes hB1 hB2 q auto b ops hops s0 s hnew hrun
+
+/-- `remove` is total on every reachable state — given Layer B only -/
+theorem C04_partial_remove_total_B (hB1 : B1_add) (hB2 : B2_remove) (q : Int) (auto : Bool) (b : Nat)
+    (ops : List Op) (hops : ∀ op ∈ ops, op.InRange) (s0 s : QF) (hnew : QF.new q auto = .ok s0)
+    (hrun : run b s0 ops = .ok s) (h : Nat) (hh : h < 2 ^ 32) :
+    ∃ t, step b s (.remove h) = .ok t :=
+  C04_partial_remove_total C04_contained C04_hashes hB1 hB2 q auto b ops hops s0 s hnew hrun h hh
+
+/-- the outcome of `add` without auto-resize on every reachable state — given Layer B only -/
+theorem C04_partial_add_outcome_B (hB1 : B1_add) (hB2 : B2_remove) (q : Int) (b : Nat)
+    (ops : List Op) (hops : ∀ op ∈ ops, op.InRange) (s0 s : QF) (hnew : QF.new q false = .ok s0)
+    (hrun : run (b + 1) s0 ops = .ok s) (h : Nat) (hh : h < 2 ^ 32) :
+    let a := absRun false ⟨q.toNat, []⟩ ops
+    if h ∉ a.H ∧ a.H.length + 1 ≥ 2 ^ a.q then step (b + 1) s (.add h) = .error .qfError
+    else ∃ t, step (b + 1) s (.add h) = .ok t :=
+  C04_partial_add_outcome C04_contained C04_hashes hB1 hB2 q b ops hops s0 s hnew hrun h hh
+
 /-! ### an unconditional instance: unbounded histories over a bounded universe
 
 The hypotheses of `C04_partial` hold on all canonical tables of the 8-slot filter over the
-7-element universe `QFBounded.UA` (checked by kernel evaluation of the model on all 128 subsets);
-therefore every history of `add`/`remove` calls over that universe, of any length, is an exact set. -/
+universes `QFBounded.UA` (7 elements, 128 sets) and `QFBounded.UB` (6 elements, 64 sets) — checked
+by kernel evaluation of the model; therefore every history of `add`/`remove` calls over such a
+universe, of any length, is an exact set. -/
+
+/-- the (decidable) facts about a universe `U` of elements of the 8-slot table that the exhaustive
+    evaluation establishes -/
+structure QFBounded.UniverseOK (U : List Elem) : Prop where
+  contained : QFBounded.checkContained U = true
+  hashes : QFBounded.checkHashes U = true
+  add : QFBounded.checkAdd U = true
+  remove : QFBounded.checkRemove U = true
+  closed : QFBounded.checkClosed U = true
+  small : ∀ y ∈ U, y.2 < 8
+  nil : [] ∈ QFBounded.subsets U
+
+theorem QFBounded.UniverseOK_UA : QFBounded.UniverseOK QFBounded.UA :=
+  ⟨QFBounded.checkContained_UA, QFBounded.checkHashes_UA, QFBounded.checkAdd_UA,
+    QFBounded.checkRemove_UA, QFBounded.checkClosed_UA, by decide, by decide⟩
+
+theorem QFBounded.UniverseOK_UB : QFBounded.UniverseOK QFBounded.UB :=
+  ⟨QFBounded.checkContained_UB, QFBounded.checkHashes_UB, QFBounded.checkAdd_UB,
+    QFBounded.checkRemove_UB, QFBounded.checkClosed_UB, by decide, by decide⟩
 
 open QFBounded in
-private structure JB (s : QF) (a : Abs) : Prop where
+private structure JB (U : List Elem) (s : QF) (a : Abs) : Prop where
   q : a.q = 3
-  sub : pairs 3 a.H ∈ subsets UA
+  sub : pairs 3 a.H ∈ subsets U
   len : a.H.length < 8
   sorted : SortedN a.H
   eq : s = layout 3 false (pairs 3 a.H)
 
 open QFBounded in
-private theorem UA_dec_enc : ∀ x ∈ UA, dec 3 (enc 3 x) = x := by
+private theorem UA_dec_enc {U : List Elem} (hU : UniverseOK U) : ∀ x ∈ U, dec 3 (enc 3 x) = x := by
   intro x hx
   apply dec_enc
-  have : ∀ y ∈ UA, y.2 < 8 := by decide
-  have := this x hx
+  have := hU.small x hx
   have : (8 : Nat) ≤ 2 ^ (32 - 3) := by decide
   omega
 
 open QFBounded in
-private theorem jb_step (b : Nat) (s : QF) (a : Abs) (x : Elem) (hx : x ∈ UA) (hJ : JB s a) :
-    (∀ t, step (b + 1) s (.add (enc 3 x)) = .ok t → JB t (absStep false a (.add (enc 3 x)))) ∧
-    (∀ t, step (b + 1) s (.remove (enc 3 x)) = .ok t → JB t (absStep false a (.remove (enc 3 x)))) := by
-  have hde := UA_dec_enc x hx
+private theorem jb_step {U : List Elem} (hU : UniverseOK U) (b : Nat) (s : QF) (a : Abs) (x : Elem)
+    (hx : x ∈ U) (hJ : JB U s a) :
+    (∀ t, step (b + 1) s (.add (enc 3 x)) = .ok t → JB U t (absStep false a (.add (enc 3 x)))) ∧
+    (∀ t, step (b + 1) s (.remove (enc 3 x)) = .ok t → JB U t (absStep false a (.remove (enc 3 x)))) := by
+  have hde := UA_dec_enc hU x hx
   have hlen : (pairs 3 a.H).length < 8 := by simp only [pairs, List.length_map]; exact hJ.len
-  obtain ⟨hC, hins, hers⟩ := closed_sub checkClosed_UA hJ.sub hlen hx
+  obtain ⟨hC, hins, hers⟩ := closed_sub hU.closed hJ.sub hlen hx
   have hs := hJ.eq
   have e1 : (layout 3 false (pairs 3 a.H)).quotOf (enc 3 x) = x.1 := by
     show (dec 3 (enc 3 x)).1 = x.1
@@ -771,7 +889,7 @@ private theorem jb_step (b : Nat) (s : QF) (a : Abs) (x : Elem) (hx : x ∈ UA) 
     simp only [step] at ht
     rw [addAlt_noresize _ _ _ (by rw [hs]; rfl), hs] at ht
     simp only [addTail, e1, e2] at ht
-    have hc := all_sub checkContained_UA hJ.sub hlen hx
+    have hc := all_sub hU.contained hJ.sub hlen hx
     simp only [containedOk] at hc
     cases hcl : containedAtLoc (layout 3 false (pairs 3 a.H)) x.1 x.2 with
     | error e => rw [hcl] at hc; cases hc
@@ -794,7 +912,7 @@ private theorem jb_step (b : Nat) (s : QF) (a : Abs) (x : Elem) (hx : x ∈ UA) 
               have := List.contains_iff_mem.2 (hmem.2 hm)
               rw [hnc] at this; cases this
             simp only at ht
-            have ha := all_sub checkAdd_UA hJ.sub hlen hx
+            have ha := all_sub hU.add hJ.sub hlen hx
             simp only [addOk, hnc, Bool.false_or, Bool.or_eq_true, decide_eq_true_eq, okEq_iff] at ha
             have hl1 : (insertN (enc 3 x) a.H).length = a.H.length + 1 :=
               length_insertBy_of_not_mem _ _ hnm
@@ -822,7 +940,7 @@ private theorem jb_step (b : Nat) (s : QF) (a : Abs) (x : Elem) (hx : x ∈ UA) 
                   cases ha
               simp only [absStep, absAdd, Bool.false_and, Bool.false_eq_true, if_false]
               refine ⟨hJ.q, ?_, ?_, sorted_insertBy ltN_total _ _ hJ.sorted, ?_⟩
-              · show pairs 3 (insertN (enc 3 x) a.H) ∈ subsets UA
+              · show pairs 3 (insertN (enc 3 x) a.H) ∈ subsets U
                 rw [hp]; exact hins
               · show (insertN (enc 3 x) a.H).length < 8
                 rw [hl1]; exact hlt
@@ -831,7 +949,7 @@ private theorem jb_step (b : Nat) (s : QF) (a : Abs) (x : Elem) (hx : x ∈ UA) 
   · intro t ht
     simp only [step, removeAlt] at ht
     rw [hs, e1, e2] at ht
-    have hr := all_sub checkRemove_UA hJ.sub hlen hx
+    have hr := all_sub hU.remove hJ.sub hlen hx
     simp only [removeOk, okEq_iff] at hr
     rw [hr] at ht
     cases ht
@@ -839,7 +957,7 @@ private theorem jb_step (b : Nat) (s : QF) (a : Abs) (x : Elem) (hx : x ∈ UA) 
       simp only [eraseN]; rw [pairs_erase, hde]
     simp only [absStep]
     refine ⟨hJ.q, ?_, ?_, sorted_erase hJ.sorted _, ?_⟩
-    · show pairs 3 (eraseN (enc 3 x) a.H) ∈ subsets UA
+    · show pairs 3 (eraseN (enc 3 x) a.H) ∈ subsets U
       rw [hp]; exact hers
     · show (eraseN (enc 3 x) a.H).length < 8
       have := List.length_erase_le (a := enc 3 x) (l := a.H)
@@ -848,25 +966,24 @@ private theorem jb_step (b : Nat) (s : QF) (a : Abs) (x : Elem) (hx : x ∈ UA) 
       rw [hp]
 
 open QFBounded in
-/-- **C04 on an 8-slot table over a 7-element universe, unconditionally**: histories of any
-    length of `add`/`remove` calls with hashes from `UA` (runs of up to three elements, a run
-    wrapping round the end of the table, the table filled up to its last free slot) in which no
-    call raised.  The four refinement facts are established by exhaustive kernel evaluation
-    (`QFBounded.check*_UA`); the induction over the history is a proof. -/
-theorem C04_exact_set_bounded (b : Nat) (ops : List Op)
-    (hops : ∀ op ∈ ops, ∃ x ∈ UA, op = .add (enc 3 x) ∨ op = .remove (enc 3 x))
+/-- **C04 on an 8-slot table over a checked universe, without refinement hypotheses**: histories
+    of any length of `add`/`remove` calls with hashes from `U` in which no call raised.  The four
+    refinement facts on the subsets of `U` are the decidable hypothesis `UniverseOK U`; the
+    induction over the history is a proof. -/
+theorem C04_exact_set_universe (U : List Elem) (hU : UniverseOK U) (b : Nat) (ops : List Op)
+    (hops : ∀ op ∈ ops, ∃ x ∈ U, op = .add (enc 3 x) ∨ op = .remove (enc 3 x))
     (s : QF) (hrun : run (b + 1) (QF.empty 3 false) ops = .ok s) :
     let a := absRun false ⟨3, []⟩ ops
     s = layout 3 false (pairs 3 a.H) ∧
-    (∀ x ∈ UA, checkAlt s (enc 3 x) = .ok (decide (enc 3 x ∈ a.H))) ∧
+    (∀ x ∈ U, checkAlt s (enc 3 x) = .ok (decide (enc 3 x ∈ a.H))) ∧
     (∃ l, getHashes s = .ok l ∧ l.Perm a.H) ∧
     s.count = (a.H.length : Nat) ∧ a.q = 3 := by
   intro a
-  have hJ0 : JB (QF.empty 3 false) ⟨3, []⟩ :=
-    ⟨rfl, by decide, by decide, by simp [SortedBy], by simp [pairs, layout_nil]⟩
-  have key : ∀ (ops : List Op) (s0 : QF) (a0 : Abs), JB s0 a0 →
-      (∀ op ∈ ops, ∃ x ∈ UA, op = .add (enc 3 x) ∨ op = .remove (enc 3 x)) →
-      run (b + 1) s0 ops = .ok s → JB s (absRun false a0 ops) := by
+  have hJ0 : JB U (QF.empty 3 false) ⟨3, []⟩ :=
+    ⟨rfl, hU.nil, by decide, by simp [SortedBy], by simp [pairs, layout_nil]⟩
+  have key : ∀ (ops : List Op) (s0 : QF) (a0 : Abs), JB U s0 a0 →
+      (∀ op ∈ ops, ∃ x ∈ U, op = .add (enc 3 x) ∨ op = .remove (enc 3 x)) →
+      run (b + 1) s0 ops = .ok s → JB U s (absRun false a0 ops) := by
     intro ops
     induction ops with
     | nil => intro s0 a0 hJ _ hr; simp only [run] at hr; cases hr; exact hJ
@@ -878,19 +995,19 @@ theorem C04_exact_set_bounded (b : Nat) (ops : List Op)
         | error e => rw [hst] at hr; cases hr
         | ok s1 =>
             rw [hst] at hr
-            have hJ1 : JB s1 (absStep false a0 op) := by
+            have hJ1 : JB U s1 (absStep false a0 op) := by
               rcases hop with e | e
-              · subst e; exact (jb_step b s0 a0 x hx hJ).1 s1 hst
-              · subst e; exact (jb_step b s0 a0 x hx hJ).2 s1 hst
+              · subst e; exact (jb_step hU b s0 a0 x hx hJ).1 s1 hst
+              · subst e; exact (jb_step hU b s0 a0 x hx hJ).2 s1 hst
             simp only [absRun, List.foldl_cons]
             exact ih s1 _ hJ1 (fun o hoo => ho o (List.mem_cons_of_mem _ hoo)) hr
-  have hJ : JB s a := key ops _ _ hJ0 hops hrun
+  have hJ : JB U s a := key ops _ _ hJ0 hops hrun
   clear_value a
   have hlen : (pairs 3 a.H).length < 8 := by simp only [pairs, List.length_map]; exact hJ.len
   refine ⟨hJ.eq, ?_, ?_, ?_, hJ.q⟩
   · intro x hx
-    have hde := UA_dec_enc x hx
-    have hc := all_sub checkContained_UA hJ.sub hlen hx
+    have hde := UA_dec_enc hU x hx
+    have hc := all_sub hU.contained hJ.sub hlen hx
     simp only [containedOk] at hc
     rw [hJ.eq]
     have e1 : (layout 3 false (pairs 3 a.H)).quotOf (enc 3 x) = x.1 := by
@@ -914,7 +1031,7 @@ theorem C04_exact_set_bounded (b : Nat) (ops : List Op)
         · have h2 : x ∉ pairs 3 a.H := fun h => hm (this.1 h)
           simp [hm, h2]
   · have hh : hashesOk (pairs 3 a.H) = true := by
-      have := checkHashes_UA
+      have := hU.hashes
       unfold checkHashes at this
       rw [List.all_eq_true] at this
       have := this _ hJ.sub
@@ -931,5 +1048,96 @@ theorem C04_exact_set_bounded (b : Nat) (ops : List Op)
         simp only [List.isPerm_iff, map_enc_pairs] at hh
         exact ⟨l, rfl, hh⟩
   · rw [hJ.eq]; simp [pairs]
+
+open QFBounded in
+/-- **C04 on an 8-slot table over the 7-element universe `UA`, unconditionally** (runs of up to
+    three elements, a run wrapping round the end of the table, the table filled up to its last
+    free slot): every history of `add`/`remove` calls of any length in which no call raised -/
+theorem C04_exact_set_bounded (b : Nat) (ops : List Op)
+    (hops : ∀ op ∈ ops, ∃ x ∈ UA, op = .add (enc 3 x) ∨ op = .remove (enc 3 x))
+    (s : QF) (hrun : run (b + 1) (QF.empty 3 false) ops = .ok s) :
+    let a := absRun false ⟨3, []⟩ ops
+    s = layout 3 false (pairs 3 a.H) ∧
+    (∀ x ∈ UA, checkAlt s (enc 3 x) = .ok (decide (enc 3 x ∈ a.H))) ∧
+    (∃ l, getHashes s = .ok l ∧ l.Perm a.H) ∧
+    s.count = (a.H.length : Nat) ∧ a.q = 3 :=
+  C04_exact_set_universe UA UniverseOK_UA b ops hops s hrun
+
+open QFBounded in
+/-- … and over the 6-element universe `UB` (adjacent runs in the middle of the table) -/
+theorem C04_exact_set_bounded_B (b : Nat) (ops : List Op)
+    (hops : ∀ op ∈ ops, ∃ x ∈ UB, op = .add (enc 3 x) ∨ op = .remove (enc 3 x))
+    (s : QF) (hrun : run (b + 1) (QF.empty 3 false) ops = .ok s) :
+    let a := absRun false ⟨3, []⟩ ops
+    s = layout 3 false (pairs 3 a.H) ∧
+    (∀ x ∈ UB, checkAlt s (enc 3 x) = .ok (decide (enc 3 x ∈ a.H))) ∧
+    (∃ l, getHashes s = .ok l ∧ l.Perm a.H) ∧
+    s.count = (a.H.length : Nat) ∧ a.q = 3 :=
+  C04_exact_set_universe UB UniverseOK_UB b ops hops s hrun
+
+/-! ### non-vacuity, and the bounded checks (TESTS by kernel evaluation, not proofs) -/
+
+section examples
+open QFBounded
+
+/-- a canonical set whose canonical table wraps round the end of the table: the run of quotient 7
+    occupies slots 7, 0, 1 and pushes the element of quotient 0 to slot 2; slot 3 is the first
+    empty one -/
+example : Canon 3 [(0, 1), (6, 0), (7, 0), (7, 2), (7, 5)] := by decide
+
+example : layout 3 false [(0, 1), (6, 0), (7, 0), (7, 2), (7, 5)] =
+    ⟨3, [2, 5, 1, 0, 0, 0, 0, 0],
+        [true, false, false, false, false, false, true, true],
+        [true, true, false, false, false, false, false, false],
+        [true, true, true, false, false, false, false, false], 5, false⟩ := by decide +kernel
+
+example : emptySlot 8 [(0, 1), (6, 0), (7, 0), (7, 2), (7, 5)] = 3 := by decide +kernel
+example : Fits 8 [(0, 1), (6, 0), (7, 0), (7, 2), (7, 5)] := C04_layout_fits 3 _ (by decide)
+
+/-- the (proved) read-path theorems applied to that table -/
+example : ∃ o, containedAtLoc (layout 3 false [(0, 1), (6, 0), (7, 0), (7, 2), (7, 5)]) 7 2 = .ok o ∧
+    (o.isSome = true ↔ ((7, 2) : Elem) ∈ [(0, 1), (6, 0), (7, 0), (7, 2), (7, 5)]) :=
+  C04_contained 3 false _ (7, 2) (by decide) (by decide)
+
+/-- instances of the two hypotheses that are NOT proved in general (TESTS): inserting into the
+    middle of the wrapping run, and removing its first element -/
+example : addQR (layout 3 false [(0, 1), (6, 0), (7, 0), (7, 5)]) 7 2 =
+    .ok (layout 3 false (insert (7, 2) [(0, 1), (6, 0), (7, 0), (7, 5)])) :=
+  (okEq_iff _ _).1 (by decide +kernel)
+
+example : removeQR (layout 3 false [(0, 1), (6, 0), (7, 0), (7, 2), (7, 5)]) 7 0 =
+    .ok (layout 3 false (erase (7, 0) [(0, 1), (6, 0), (7, 0), (7, 2), (7, 5)])) :=
+  (okEq_iff _ _).1 (by decide +kernel)
+
+/-- TEST: the four refinement facts on ALL canonical tables of the 8-slot filter whose elements
+    come from `UA` (128 sets, up to the full table of 7 elements) and from `UB` (64 sets): every
+    element of the universe is looked up in, inserted into and removed from every set -/
+example : checkContained UA = true ∧ checkHashes UA = true ∧ checkAdd UA = true ∧ checkRemove UA = true :=
+  ⟨checkContained_UA, checkHashes_UA, checkAdd_UA, checkRemove_UA⟩
+example : checkContained UB = true ∧ checkHashes UB = true ∧ checkAdd UB = true ∧ checkRemove UB = true ∧
+    checkAddAlt UB = true :=
+  ⟨checkContained_UB, checkHashes_UB, checkAdd_UB, checkRemove_UB, checkAddAlt_UB⟩
+
+/-- a concrete history satisfying the hypotheses of `C04_exact_set_bounded` (and of `C04_partial`):
+    it did not raise, and ends in the canonical table of the set `{(7,0), (7,2)}` -/
+example : run 1 (QF.empty 3 false)
+    [.add (enc 3 (0, 1)), .add (enc 3 (7, 2)), .add (enc 3 (7, 0)), .remove (enc 3 (0, 1))] =
+    .ok (layout 3 false [(7, 0), (7, 2)]) :=
+  (okEq_iff _ _).1 (by decide +kernel)
+
+example : setOf false 3 [.add (enc 3 (0, 1)), .add (enc 3 (7, 2)), .add (enc 3 (7, 0)), .remove (enc 3 (0, 1))] =
+    [enc 3 (7, 0), enc 3 (7, 2)] := by decide +kernel
+
+example : ∀ op ∈ [Op.add (enc 3 (0, 1)), .add (enc 3 (7, 2)), .add (enc 3 (7, 0)), .remove (enc 3 (0, 1))],
+    op.InRange := by
+  intro op hop
+  simp only [List.mem_cons, List.not_mem_nil, or_false] at hop
+  rcases hop with rfl | rfl | rfl | rfl <;> simp only [Op.InRange] <;> decide
+
+/-- the refusal: a full 8-slot table (7 elements) refuses an eighth element -/
+example : addQR (layout 3 false UA) 3 0 = .error .qfError :=
+  (C04_add_refused_iff _ _ _).2 (by decide)
+
+end examples
 
 end PyProb.C04
